@@ -14,6 +14,7 @@ def analyse(ctx: CheckContext, p: Program):
     order.check_config_attrs(ctx, p, r, cone if ctx.tier == "quick" else cone)
     order.check_handler_table(ctx, p, r)
     order.check_division_guards(ctx, p, r, cone)
+    order.check_subzone_loops(ctx, p, r)
 
 
 def run(ctx: CheckContext):
@@ -40,5 +41,8 @@ def run(ctx: CheckContext):
                 "            elif z.identifier == ZoneType.S.value:\n                _get_site_targets(z)", "            elif z.identifier == ZoneType.S:\n                _get_site_targets(z)", "T4-FORM")
     run_control(ctx, "C14/nonstrict-division-guard", analyse, p.root, "OpenPinch/analysis/indirect_integration_entry.py",
                 "            if heat_recovery_limit > 0\n", "            if heat_recovery_limit >= 0\n", "DIV-GUARD")
+    run_control(ctx, "C14/loop-targets-parent", analyse, p.root, m,
+                "                    if zone.config.DO_DIRECT_OPERATION_TARGETING:\n                        compute_direct_integration_targets(z)",
+                "                    if zone.config.DO_DIRECT_OPERATION_TARGETING:\n                        compute_direct_integration_targets(zone)", "LOOPVAR")
     run_control(ctx, "C14/config-attr-typo", analyse, p.root, "OpenPinch/analysis/direct_integration_entry.py",
                 "do_assisted_ht_calc=zone_config.DO_ASSITED_HT,", "do_assisted_ht_calc=zone_config.DO_ASSISTED_HT,", "ATTR")
